@@ -1324,6 +1324,13 @@ fn op_openapi(case: &Value) -> Value {
         let mut docs: Vec<Vec<u8>> = vec![];
         for order in &orders {
             let mut api = ApiDescription::<()>::new();
+            if let Some(declared) = case["tag_config"].as_array() {
+                // tags declared up front (kept in a HashMap by the framework), endpoints may use others too
+                let tags = declared.iter().map(|t| {
+                    (t.as_str().unwrap_or("t").to_string(), dropshot::TagDetails { description: Some(format!("about {}", t)), external_docs: None })
+                }).collect();
+                api = api.tag_config(dropshot::TagConfig { allow_other_tags: true, policy: dropshot::EndpointTagPolicy::Any, tags });
+            }
             for &i in order {
                 let e = crate::make_endpoint(&eps[i]).expect("endpoint");
                 if let Err(e) = api.register(e) { return json!({"error": format!("register: {:?}", e)}); }
@@ -1361,7 +1368,7 @@ fn op_openapi(case: &Value) -> Value {
         }
         walk(&doc, &doc, &mut refs_resolve);
         shared_type = doc["components"]["schemas"]["SharedMode"].clone();
-        per_version.push(json!({"version": v.to_string(), "operations": ops}));
+        per_version.push(json!({"version": v.to_string(), "operations": ops, "tags": doc["tags"].clone()}));
     }
     json!({"per_version": per_version, "same_across_orders": same_across_orders, "same_twice": same_twice, "refs_resolve": refs_resolve,
            "shared_type": shared_type})
